@@ -979,3 +979,136 @@ Proof.
   intros g Hg. unfold entry in Hg. destruct (tget None tb) as [l|] eqn:E; [|destruct Hg].
   exact (Hno None l g (tget_In _ _ _ E) Hg).
 Qed.
+
+(* ------------------------------------------------------------------ unknown markers: which entries reach the reference check *)
+(* entry_replaced without the membership test *)
+Definition replaced_core (tb : table) (q : list gene) (minm : nat) (t : tree) (p : pkey) : bool :=
+  match p with
+  | None => false
+  | Some (li, x) =>
+      (2 <=? length (children t p))%nat && (n_usable q (entry tb p) <? minm)%nat &&
+      (negb (is_nil (anc_lists tb t li x)) || match tget None tb with Some _ => true | None => false end)
+  end.
+
+Lemma entry_replaced_core tb q minm t p :
+  entry_replaced tb q minm t p = in_parents t p && replaced_core tb q minm t p.
+Proof.
+  destruct p as [[li x]|]; unfold entry_replaced, replaced_core; [|rewrite andb_false_r; reflexivity].
+  rewrite !andb_assoc. reflexivity.
+Qed.
+
+Lemma replaced_core_ext tb tb' q minm t p :
+  tget p tb = tget p tb' ->
+  (forall li x a, p = Some (li, x) -> In a (ancestors t li x) -> tget (Some a) tb = tget (Some a) tb') ->
+  tget None tb = tget None tb' ->
+  replaced_core tb q minm t p = replaced_core tb' q minm t p.
+Proof.
+  intros H1 H2 H3. destruct p as [[li x]|]; [|reflexivity].
+  unfold replaced_core, entry, anc_lists. rewrite H1, H3.
+  fold (present_lists tb (ancestors t li x)). fold (present_lists tb' (ancestors t li x)).
+  rewrite (present_lists_ext tb tb'); [reflexivity|].
+  intros a Ha. eapply H2; [reflexivity | exact Ha].
+Qed.
+
+(* an entry that is not replaced is left as listed by the step of its own key *)
+Lemma step_tb_keep t q minm tb p v :
+  tget p tb = Some v -> replaced_core tb q minm t p = false ->
+  tget p (step_tb t q minm tb p) = Some v.
+Proof.
+  intros Hget Hrep. unfold step_tb.
+  destruct (length (children t p) <=? 1)%nat eqn:Ec; [exact Hget|].
+  destruct p as [[li x]|]; [|exact Hget].
+  rewrite Hget. cbv beta iota zeta.
+  destruct (n_usable q (entry tb (Some (li, x))) <? minm)%nat eqn:Emin; [|exact Hget].
+  unfold replaced_core in Hrep. rewrite Emin in Hrep.
+  assert (H2 : (2 <=? length (children t (Some (li, x))))%nat = true).
+  { apply Nat.leb_le. apply Nat.leb_gt in Ec. lia. }
+  rewrite H2 in Hrep. cbn [andb] in Hrep.
+  apply orb_false_iff in Hrep. destruct Hrep as [Hal Hroot].
+  apply negb_false_iff in Hal. unfold anc_lists in Hal.
+  unfold patch_parent.
+  pose proof (patch_loop_patched_nil tb q minm (ancestors t li x) (entry tb (Some (li, x))) []) as HN.
+  destruct (patch_loop tb q minm (ancestors t li x) (entry tb (Some (li, x))) []) as [new1 patched1].
+  cbn [fst snd] in HN. unfold present_lists in HN. rewrite Hal in HN. cbn in HN.
+  destruct (tget None tb) as [l0|]; [discriminate|].
+  destruct (n_usable q new1 <? minm)%nat; cbn [fst]; rewrite HN; exact Hget.
+Qed.
+
+Lemma R_keep t q minm tb0 l : ordered l ->
+  forall k v, tget k tb0 = Some v -> (In k l -> replaced_core tb0 q minm t k = false) ->
+  tget k (R t q minm tb0 l) = Some v.
+Proof.
+  induction l as [|p rest IH]; intros Ho k v Hget Hrep; [exact Hget|].
+  cbn [ordered] in Ho. destruct Ho as (Hdeep & Hnew & Ho).
+  cbn [R fold_right]. fold (R t q minm tb0 rest).
+  destruct (R_inv t q minm tb0 rest Ho) as [IH1 _].
+  destruct (pkey_eqb k p) eqn:E.
+  - apply pkey_eqb_eq in E. subst p.
+    assert (Hk : tget k (R t q minm tb0 rest) = tget k tb0) by (apply IH1; exact Hnew).
+    apply step_tb_keep; [rewrite Hk; exact Hget|].
+    rewrite <- (Hrep (or_introl eq_refl)). apply replaced_core_ext.
+    + exact Hk.
+    + intros li x [k' a] Ek Ha. subst k. apply IH1.
+      intros Hr. apply Hdeep in Hr. apply ancestors_above in Ha. cbn in Hr. lia.
+    + apply R_root.
+  - apply pkey_eqb_neq in E. rewrite step_tb_other by exact E.
+    apply IH; [exact Ho | exact Hget |]. intros Hin. apply Hrep. right. exact Hin.
+Qed.
+
+(* a listed marker that the reference does not know ends the run with an error, unless the query lacks it too
+   AND its entry is replaced by the patched one (which is restricted to query genes) *)
+Theorem unknown_marker_is_error t tb refg qg minm k l g :
+  dict_ok t -> tget k tb = Some l -> In g l ->
+  demands_error tb refg qg minm t k g = true ->
+  exists e, create_cache tb refg qg (Some t) minm = MErr e.
+Proof.
+  intros Hd Hget Hg Hdem. unfold demands_error in Hdem.
+  apply andb_true_iff in Hdem. destruct Hdem as [Hr Hc].
+  apply negb_true_iff in Hr. apply zmem_false in Hr.
+  apply orb_true_iff in Hc. destruct Hc as [Hq|Hn].
+  - apply zmem_in in Hq. eapply unknown_to_reference_is_error; [apply tget_In; exact Hget | exact Hg | exact Hq | exact Hr].
+  - destruct (create_cache tb refg qg (Some t) minm) as [c|e] eqn:E; [|eexists; reflexivity].
+    exfalso. destruct (create_cache_inv _ _ _ _ _ _ E) as (tb' & log & final & V & C & M & W).
+    assert (Hk : tget k tb' = Some l).
+    { unfold validate_marker_lookup in V.
+      destruct (v_err (vfold tb qg t minm)); [destruct (Nat.eqb _ _); discriminate|].
+      inversion V; subst tb' log. rewrite vfold_tb.
+      apply R_keep; [apply ordered_all_parents; exact Hd | exact Hget |].
+      intros Hin. apply negb_true_iff in Hn. rewrite entry_replaced_core in Hn.
+      assert (Hp : in_parents t k = true).
+      { unfold in_parents. apply existsb_exists. exists k. split; [exact Hin | apply pkey_eqb_refl]. }
+      rewrite Hp in Hn. exact Hn. }
+    assert (T : missing_ref refg tb' = true).
+    { unfold missing_ref. apply existsb_exists. exists (k, l). split; [apply tget_In; exact Hk|].
+      cbn. apply existsb_exists. exists g. split; [exact Hg|]. apply negb_true_iff, zmem_false. exact Hr. }
+    congruence.
+Qed.
+
+(* hence: an accepted table (a dict: no key twice) leaves nothing in unknown_demanded *)
+Lemma NoDup_keys_tget {A} k (v : A) tb : NoDup (map fst tb) -> In (k, v) tb -> tget k tb = Some v.
+Proof.
+  induction tb as [|[k' v'] r IH]; intros ND Hin; [destruct Hin|].
+  cbn [map fst] in ND. inversion ND as [|? ? Hnot ND']; subst.
+  cbn [tget]. destruct Hin as [E|Hin].
+  - inversion E; subst. rewrite pkey_eqb_refl. reflexivity.
+  - destruct (pkey_eqb k k') eqn:Ek.
+    + apply pkey_eqb_eq in Ek. subst k'. exfalso. apply Hnot. apply in_map_iff. exists (k, v). auto.
+    + apply IH; assumption.
+Qed.
+
+Theorem accepted_demands_nothing t tb refg qg minm c :
+  dict_ok t -> NoDup (map fst tb) ->
+  create_cache tb refg qg (Some t) minm = MOk c ->
+  unknown_demanded tb refg qg minm t = [].
+Proof.
+  intros Hd ND Hc.
+  destruct (unknown_demanded tb refg qg minm t) as [|[k g] rest] eqn:E; [reflexivity|].
+  exfalso.
+  assert (Hin : In (k, g) (unknown_demanded tb refg qg minm t)) by (rewrite E; left; reflexivity).
+  unfold unknown_demanded in Hin. apply in_flat_map in Hin. destruct Hin as ([k' l] & Hkl & Hin).
+  apply filter_In in Hkl. destruct Hkl as [Hkl _].
+  cbn [fst snd] in Hin. apply in_map_iff in Hin. destruct Hin as (g' & Eg & Hg').
+  inversion Eg; subst k' g'. apply filter_In in Hg'. destruct Hg' as [Hg Hdem].
+  destruct (unknown_marker_is_error t tb refg qg minm k l g Hd (NoDup_keys_tget _ _ _ ND Hkl) Hg Hdem) as [e He].
+  congruence.
+Qed.
